@@ -357,7 +357,9 @@ def _e2e_body(case, ctx):
     body_tot = inter.body_flow_forces.sum(axis=1)[:dim]
     lag_tot = inter.lag_grid_forcing_field.astype(np.float64).sum(axis=1)
     mag = float(np.sum(np.abs(inter.lag_grid_forcing_field.astype(np.float64)))) + float(np.sum(np.abs(pre))) * vol
-    tol = 256 * eps * mag + 1e-300
+    # absolute floor: marker forces / spread values below the smallest normal number of the working precision are flushed to zero
+    # (the process runs flush-to-zero), each of the 4^dim cells of each marker may lose up to `tiny` before the 1/dx^dim-weighted sum
+    tol = 256 * eps * mag + 64 * float(np.finfo(real_t).tiny) * (inter.lag_grid_forcing_field.shape[1] * 4**dim + 1)
     if np.any(np.abs(grid_tot + body_tot) > tol):
         raise Violation(f"{case['grid']} ({case['dtype']}): grid integral of the force density on the fluid {grid_tot.tolist()} + net force on the body "
                         f"{body_tot.tolist()} != 0 (marker force total {lag_tot.tolist()}, tol {tol:.3e})")
